@@ -71,6 +71,17 @@ def main():
                     "translator: the validators regenerated from validators.py no longer decide as the model does (tie theorem(s) %s fail)"
                     % ", ".join(tv["failed_names"]), {"kind": "translation", "failed": tv["failed"]}, tv["definitions"],
                     "NostrRelay/Model/Admission.lean")
+        if prop == "C05":
+            from lib import translate_validators
+            tl = translate_validators.run_live(common.REPO, common.LEAN)
+            report.coverage["translation_tie"] = {
+                "source": "nostr_relay/storage/base.py BaseSubscription.check_event", "status": tl["status"], "theorems": tl["theorems"],
+                "failed": tl["failed"], "unavailable": tl["unavailable"], "definitions": tl["definitions"]}
+            if tl["failed_names"]:
+                report.correspondence_break(
+                    "translator: check_event regenerated from storage/base.py no longer matches as the model's liveMatch (%s fail)"
+                    % ", ".join(tl["failed_names"]), {"kind": "translation", "failed": tl["failed"]}, tl["definitions"],
+                    "NostrRelay/Model/Live.lean liveMatch")
         if prop == "C15":
             from lib import translate_validators
             ta = translate_validators.run_auth(common.REPO, common.LEAN)
